@@ -22,28 +22,50 @@ Import ListNotations.
 
 (* ======================= nearest configuration wins ======================= *)
 
-(* For a chain of ANY depth: the closest directory (the start directory included) that holds a
+(* For a chain of ANY depth and however the start path is spelled ([arg], relative to the working
+   directory [cwd] or absolute, with "." / ".." / repeated separators, as long as it denotes the
+   start of the chain): the closest directory (the start directory included) that holds a
    configuration of either kind decides the result, whatever lies above it; if none does, the
    search fails with "could not find Regal config". *)
 Theorem c18_find_nearest :
-  forall (c0 : contents) (lv : levels) (file : option str),
+  forall (c0 : contents) (lv : levels) (file : option str) (cwd arg : str),
   Forall plain_name (map fst lv) -> file_ok file ->
+  abs_path cwd arg = start_path lv file ->
   let fs := fs_of_chain c0 lv file in
-  let start := start_path lv file in
   (forall above n c below, lv = above ++ (n, c) :: below ->
      holds c = true -> none_hold below ->
-     find_config fs start = outcome_at (map fst above ++ [n]) c) /\
-  (holds c0 = true -> none_hold lv -> find_config fs start = outcome_at [] c0) /\
-  (holds c0 = false -> none_hold lv -> find_config fs start = FErr ENotFound).
+     find_config fs cwd arg = outcome_at (map fst above ++ [n]) c) /\
+  (holds c0 = true -> none_hold lv -> find_config fs cwd arg = outcome_at [] c0) /\
+  (holds c0 = false -> none_hold lv -> find_config fs cwd arg = FErr ENotFound).
 Proof. exact find_nearest. Qed.
 Print Assumptions c18_find_nearest.
+
+(* (the start path spelled as itself meets the hypothesis on [arg], whatever [cwd]) *)
+Theorem c18_start_path_is_a_spelling :
+  forall (lv : levels) (file : option str) (cwd : str),
+  Forall plain_name (map fst lv) -> file_ok file ->
+  abs_path cwd (start_path lv file) = start_path lv file.
+Proof. exact abs_path_start. Qed.
+Print Assumptions c18_start_path_is_a_spelling.
+
+(* Regression witness: at the pinned commit the search cut elements off the path as spelled: from
+   "/a/b/.." (the directory /a) it used /a/b/.regal.yaml, the configuration of a DESCENDANT.
+   Repaired in /repo by commit f78e575 (filepath.Abs first). *)
+Theorem c18_find_spelled_pinned_refuted :
+  abs_path [SLASH] arg_ab_up = [47; 97]%N /\
+  find_config_pinned (fs_of_chain {| c_regal := RAbsent; c_yaml := YAbsent |} chain_ab None) [SLASH] arg_ab_up
+    = FFound [47; 97; 47; 98; 47; 46; 114; 101; 103; 97; 108; 46; 121; 97; 109; 108]%N /\
+  find_config (fs_of_chain {| c_regal := RAbsent; c_yaml := YAbsent |} chain_ab None) [SLASH] arg_ab_up
+    = FErr ENotFound.
+Proof. exact find_spelled_pinned_refuted. Qed.
+Print Assumptions c18_find_spelled_pinned_refuted.
 
 (* The conflict error is returned exactly when the closest .regal/ directory and the closest
    .regal.yaml file are in the same directory. *)
 Theorem c18_conflict_iff :
-  forall (c0 : contents) (lv : levels) (file : option str),
-  Forall plain_name (map fst lv) -> file_ok file ->
-  (find_config (fs_of_chain c0 lv file) (start_path lv file) = FErr EConflict <->
+  forall (c0 : contents) (lv : levels) (file : option str) (cwd arg : str),
+  Forall plain_name (map fst lv) -> file_ok file -> abs_path cwd arg = start_path lv file ->
+  (find_config (fs_of_chain c0 lv file) cwd arg = FErr EConflict <->
    exists p c, nearest holds_dir [] c0 lv = Some (p, c) /\ nearest holds_yaml [] c0 lv = Some (p, c)).
 Proof. exact conflict_iff. Qed.
 Print Assumptions c18_conflict_iff.
@@ -65,8 +87,8 @@ Print Assumptions c18_user_level_fallback.
    went on with the defaults (or the user-level file). Repaired in /repo by commit c2a44f9. *)
 Theorem c18_cli_conflict_pinned_refuted :
   exists c0 lv file global_dir global_cfg,
-    find_config (fs_of_chain c0 lv file) (start_path lv file) = FErr EConflict /\
-    cli_config_pinned None (find_config (fs_of_chain c0 lv file) (start_path lv file)) global_dir global_cfg
+    find_config (fs_of_chain c0 lv file) [SLASH] (start_path lv file) = FErr EConflict /\
+    cli_config_pinned None (find_config (fs_of_chain c0 lv file) [SLASH] (start_path lv file)) global_dir global_cfg
       = UseDefaults.
 Proof. exact cli_conflict_pinned_refuted. Qed.
 Print Assumptions c18_cli_conflict_pinned_refuted.
@@ -78,24 +100,23 @@ Theorem c18_find_nearest_file_refuted :
   exists c0 lv,
     Forall plain_name (map fst lv) /\
     holds_file c0 = true /\ Forall (fun l => holds_file (snd l) = false) lv /\
-    find_config (fs_of_chain c0 lv None) (start_path lv None) <> outcome_at [] c0.
+    find_config (fs_of_chain c0 lv None) [SLASH] (start_path lv None) <> outcome_at [] c0.
 Proof. exact find_nearest_file_refuted. Qed.
 Print Assumptions c18_find_nearest_file_refuted.
 
 (* ... and true whenever every .regal/ directory on the chain contains its config.yaml. *)
 Theorem c18_find_nearest_file_partial :
-  forall (c0 : contents) (lv : levels) (file : option str),
-  Forall plain_name (map fst lv) -> file_ok file ->
+  forall (c0 : contents) (lv : levels) (file : option str) (cwd arg : str),
+  Forall plain_name (map fst lv) -> file_ok file -> abs_path cwd arg = start_path lv file ->
   no_empty_regal_dir c0 -> Forall (fun l => no_empty_regal_dir (snd l)) lv ->
   let fs := fs_of_chain c0 lv file in
-  let start := start_path lv file in
   (forall above n c below, lv = above ++ (n, c) :: below ->
      holds_file c = true -> Forall (fun l => holds_file (snd l) = false) below ->
-     find_config fs start = outcome_at (map fst above ++ [n]) c) /\
+     find_config fs cwd arg = outcome_at (map fst above ++ [n]) c) /\
   (holds_file c0 = true -> Forall (fun l => holds_file (snd l) = false) lv ->
-     find_config fs start = outcome_at [] c0) /\
+     find_config fs cwd arg = outcome_at [] c0) /\
   (holds_file c0 = false -> Forall (fun l => holds_file (snd l) = false) lv ->
-     find_config fs start = FErr ENotFound).
+     find_config fs cwd arg = FErr ENotFound).
 Proof. exact find_nearest_file_partial. Qed.
 Print Assumptions c18_find_nearest_file_partial.
 
@@ -189,6 +210,41 @@ Theorem c18_yaml_roundtrip_partial :
 Proof. exact yaml_roundtrip_partial. Qed.
 Print Assumptions c18_yaml_roundtrip_partial.
 
+(* Configurations that were actually loaded meet [roundtrip_wf]: what UnmarshalYAML returns for a
+   document without repeated keys, and what LoadConfigWithDefaultsFromBundle makes of it. *)
+Theorem c18_loaded_config_wf :
+  forall (lookup : str -> option caps) (abs : str -> str) (dash : bool) (doc : jval) (c : config),
+  doc_wf doc = true -> unmarshal lookup abs dash doc = Ok c -> roundtrip_wf c = true.
+Proof. exact unmarshal_wf. Qed.
+Print Assumptions c18_loaded_config_wf.
+
+Theorem c18_merged_config_wf :
+  forall (p u : config) (dcaps : caps),
+  provided_plain p -> roundtrip_wf p = true -> roundtrip_wf u = true ->
+  roundtrip_wf (load p (Some u) dcaps) = true.
+Proof. exact load_wf. Qed.
+Print Assumptions c18_merged_config_wf.
+
+(* Hence, for every user document: the configuration decoded from it, and the result of merging it
+   over the provided configuration of the current tree, both survive the round trip as stated. *)
+Theorem c18_yaml_roundtrip_loaded :
+  forall (lookup : str -> option caps) (abs : str -> str) (base : caps),
+  lookup DEFAULT_CAPS_URL = Some base ->
+  forall doc u dcaps c,
+  doc_wf doc = true -> unmarshal lookup abs true doc = Ok u ->
+  c = u \/ c = load provided_config (Some u) dcaps ->
+  exists j c',
+    marshal c = Some j /\ unmarshal lookup abs true j = Ok c' /\
+    c_rules c' = norm_rules (c_rules c) /\
+    d_global (c_defaults c') = d_global (c_defaults c) /\
+    (forall cat, aget (d_cats (c_defaults c')) cat = aget (d_cats (c_defaults c)) cat) /\
+    c_ignore c' = c_ignore c /\
+    c_project c' = c_project c /\
+    c_features c' = features_back (c_features c) /\
+    c_caps c' = Some base /\ c_caps_url c' = DEFAULT_CAPS_URL.
+Proof. exact yaml_roundtrip_loaded. Qed.
+Print Assumptions c18_yaml_roundtrip_loaded.
+
 (* The full statement — unmarshal (marshal c) = c for every loaded c — is false: what
    capabilities.from / plus / minus did is not written in a form the reader understands. *)
 Theorem c18_yaml_roundtrip_refuted :
@@ -209,8 +265,10 @@ Example c18_find_nonvacuous :
   let c0 := {| c_regal := RAbsent; c_yaml := YIsFile |} in
   let ca := {| c_regal := RDir false; c_yaml := YIsFile |} in
   Forall plain_name [a; b] /\ holds ca = true /\ none_hold [(b, e)] /\
-  find_config (fs_of_chain c0 [(a, ca); (b, e)] None) (start_path [(a, ca); (b, e)] None) = FErr EConflict /\
-  find_config (fs_of_chain c0 [] None) (start_path [] None) = FFound (path_of_names [REGAL_YAML]).
+  (* "b/../b" from the working directory /a is a spelling of /a/b *)
+  abs_path [47%N; 97%N] [98%N; 47%N; 46%N; 46%N; 47%N; 98%N] = start_path [(a, ca); (b, e)] None /\
+  find_config (fs_of_chain c0 [(a, ca); (b, e)] None) [47%N; 97%N] [98%N; 47%N; 46%N; 46%N; 47%N; 98%N] = FErr EConflict /\
+  find_config (fs_of_chain c0 [] None) [SLASH] (start_path [] None) = FFound (path_of_names [REGAL_YAML]).
 Proof.
   cbn zeta. repeat split.
   - repeat constructor; try discriminate; cbn; intuition discriminate.
@@ -235,3 +293,13 @@ Example c18_roundtrip_nonvacuous :
        c_caps := None; c_features := Some (Some true); c_project := None;
        c_caps_url := []; c_ignore := [[98%N]] |} = true.
 Proof. reflexivity. Qed.
+
+(* a user document with a global default, a category default and a rule meets doc_wf and decodes *)
+Example c18_loaded_nonvacuous :
+  let doc := JObj [(RULES, JObj [(DEFAULT, JObj [(LEVEL, JStr ERROR)]);
+                                  (STYLE, JObj [(DEFAULT, JObj [(LEVEL, JStr ERROR)]);
+                                                (RL, JObj [(MAXLEN, JNum 10)])])])] in
+  doc_wf doc = true /\
+  exists u, unmarshal (fun _ => Some []) (fun p => p) true doc = Ok u /\
+            get_option u STYLE RL MAXLEN = Some (JNum 10) /\ user_cat_default u STYLE = ERROR.
+Proof. cbn zeta. split; [reflexivity|]. eexists. split; [vm_compute; reflexivity | split; reflexivity]. Qed.
